@@ -1067,6 +1067,7 @@ class ExprMixin:
         for l, s in o.raises.items():
             out.add_raise(l, s.set(env=caller_env))
         callrec["raises"] = sorted(o.raises, key=str)
+        callrec["raise_states"] = {l: o.raise_states(l) for l in o.raises}
         if o.ret is None:
             return EMPTY, None
         callrec["ret"] = o.retval
